@@ -589,11 +589,7 @@ func (lunar *Lunar) GetFestivals() *list.List {
 	if f, ok := LunarUtil.FESTIVAL[fmt.Sprintf("%d-%d", lunar.month, lunar.day)]; ok {
 		l.PushBack(f)
 	}
-	m := lunar.month
-	if m < 0 {
-		m = -m
-	}
-	if m == 12 && lunar.day >= 29 && lunar.year != lunar.Next(1).GetYear() {
+	if lunar.day >= 28 && lunar.year != lunar.Next(1).GetYear() {
 		l.PushBack("除夕")
 	}
 	return l
